@@ -245,6 +245,19 @@ func (r *Report) Finish(verifDir string, start time.Time, seed int) int {
 				found = true
 			}
 		}
+		// entries of a GOOS configuration that this tier did not load are not stale
+		if i := strings.LastIndex(key, "["); i >= 0 && strings.HasSuffix(key, "]") {
+			cfg := key[i+1 : len(key)-1]
+			loaded := false
+			for _, c := range r.Configs {
+				if c == cfg {
+					loaded = true
+				}
+			}
+			if !loaded {
+				continue
+			}
+		}
 		if !found {
 			lines = append(lines, fmt.Sprintf("note: known finding no longer reproduces (property=%s %s: %s)", r.Prop, key, k.What))
 		}
